@@ -68,18 +68,22 @@ def gen_session(rng, tier):
         aggs.append({"f": "count", "ignore_missing": rng.random() < 0.5, "rma": cubes.gen_rma(rng), "arr": None,
                      "weights": None if rng.random() < 0.7 else {"scalar": 2.0}})
     return {"cube": kind, "N": n, "dimsA": dims_a, "ishapeA": ishape_a, "dimsB": dims_b, "ishapeB": ishape_b,
-            "N2": n2, "dimsC": dims_c, "ishapeC": ishape_c,
+            "N2": n2, "dimsC": dims_c, "ishapeC": ishape_c, "dimensionless": True,
             "vars": variables, "wvars": weights, "aggs": aggs,
             "xdtype": rng.choice(("int64", "int32", "uint8", "int16"))}
 
 
 def workload_of(sess, which):
+    if which == "D":
+        # the dimensionless cube: one cell, no grouping at all
+        return {"cube": sess["cube"], "N": sess["N"], "dims": [], "ishape": [], "xdtype": "int64", "aggs": [], "engage": "flag"}
     return {"cube": sess["cube"], "N": sess["N2"] if which == "C" else sess["N"], "dims": sess["dims" + which],
             "ishape": sess["ishape" + which], "xdtype": sess.get("xdtype", "int64"), "aggs": [], "engage": "flag"}
 
 
 def cubes_of(sess):
-    return "ABC" if "dimsC" in sess else "AB"
+    names = "ABC" if "dimsC" in sess else "AB"
+    return names + "D" if sess.get("dimensionless") else names
 
 
 def row_free(spec):
@@ -91,8 +95,8 @@ def gen_ops(rng, sess, usable, tier):
     ops = []
     for i in range(n_ops):
         r = rng.random()
-        cube = rng.choice([c for c in "ABC" if usable.get(c)] or ["A"])
-        if cube == "C" and rng.random() < 0.4 and (usable["A"] or usable["B"]):
+        cube = rng.choice([c for c in "ABCD" if usable.get(c)] or ["A"])
+        if cube in "CD" and rng.random() < 0.4 and (usable["A"] or usable["B"]):
             cube = "A" if usable["A"] else "B"
         good = usable[cube]
         if r < 0.55 or i == n_ops - 1:
@@ -117,7 +121,7 @@ def gen_ops(rng, sess, usable, tier):
             ops.append({"op": "shortcut", "cube": cube, "agg": rng.choice(good)})
         elif r < 0.8:
             ops.append({"op": "newcube", "cube": cube})
-        elif r < 0.84 and cube != "C":
+        elif r < 0.84 and cube not in "CD":
             ops.append({"op": "inferred", "cube": cube, "agg": rng.choice(good)})
         elif sess["cube"] == "ccube":
             ops.append(gen_index_op(rng, sess))
@@ -127,7 +131,7 @@ def gen_ops(rng, sess, usable, tier):
 
 
 def gen_index_op(rng, sess):
-    which = rng.choice(cubes_of(sess))
+    which = rng.choice([c for c in cubes_of(sess) if c != "D"])
     dims = sess["dims" + which]
     k = rng.randrange(len(dims))
     shape = dims[k]["shape"]
@@ -190,6 +194,7 @@ class PuritySession:
     def _snapshot(self):
         return model.snapshot([self.dims["A"], self.dims["B"], self.vars, self.wvars, self.dims.get("C", [])])
 
+
     def _args(self, spec, shared):
         def get(ref, pool, specs):
             if ref is None:
@@ -227,6 +232,7 @@ class PuritySession:
         for c in self.names:
             out[c] = [i for i in range(len(self.aggs)) if self.aggs[i] is not None and self.reference(c, i) is not None]
         out.setdefault("C", [])
+        out.setdefault("D", [])
         return out
 
     # ---------------------------------------------------------------- oracle pieces
@@ -280,6 +286,8 @@ class PuritySession:
         cube = self.cube[c]
         if c == "C":
             self.count("probe_aggregate_reused_on_cube_with_other_row_count")
+        if c == "D":
+            self.count("probe_aggregate_used_on_dimensionless_cube")
         funcs = [self.aggs[i] for i in idxs]
         mode = op["mode"]
         where = "calculate:" + mode
@@ -501,7 +509,7 @@ def run(base_seed, idx, stats, opts):
     log = core.EventLog()
     ps = PuritySession(sess, stats, log)
     usable = ps.usable()
-    if not usable["A"] and not usable["B"] and not usable["C"]:
+    if not any(usable[c] for c in "ABCD"):
         stats.count("discarded_unsupported")
         return "discarded"
     stats.count("aggregate_specs_unsupported", sum(1 for c in "AB" for i in range(len(ps.aggs)) if i not in usable[c]))
